@@ -7,7 +7,7 @@ from .facts import call_names, call_target
 from .framework import RuleResult
 from . import origin as og
 from .extract import REPO
-from .rulekit import sites, sites_containing, arg_origin, has_call, find_calls, const_of, variant_fact, truth_fact, facts_at, shortfn
+from .rulekit import sites, sites_containing, arg_origin, has_call, find_calls, const_of, variant_fact, truth_fact, facts_at, shortfn, subject_is_call
 from .rules_tower import field_writes
 from .tables import eval_fn
 
@@ -329,6 +329,26 @@ def rule_CF(ctx, tier):
             rr.ok("%s: unknown keys ignored, absent keys take the value of the struct's own Default (%d generated bodies)" % (cfgty, len(fam)))
         for last, wh in sorted(badc.items()):
             rr.fail("file-layer-voided:%s:%s" % (cfgty.split("::")[-2], last), ("the deserialiser of `%s` fills an absent key with `%s`, the default of the field's TYPE, instead of the value `Config::default()` documents for it" % (cfgty, last[13:])) if last.startswith("type-default:") else ("the deserialiser of `%s` raises `%s`: the configuration file is shared by teosd and teos-cli, so any ordinary teos.toml then fails to parse for this reader and `from_file` silently falls back to the defaults — the file layer of 'command line over file over defaults' is gone" % (cfgty, last)), where=wh)
+    # ... and a file that IS there but cannot be used is not replaced by the defaults: "else the file value if present" — one
+    # value of the wrong type (polling_delta = 100000 does not fit 16 bits) would otherwise discard every other setting of the file,
+    # and the tower comes up on mainnet / 8332 / 10000 slots with only one line on stderr. Defaults are for a file that is absent.
+    ff = P.bodies.get("teos::config::from_file")
+    if ff is None:
+        rr.anchor_missing("teos::config::from_file")
+    else:
+        bad_default = []
+        for cid in P.family(ff.id):
+            cb_ = P.bodies[cid]
+            for bb, t in cb_.calls():
+                tg_ = call_target(t) or ""
+                if tg_.split("::")[-1] == "default" and "Default" in tg_:
+                    missing_file = cid == ff.id and any(f[0] == "variant" and f[2] == "Err" and subject_is_call(f[1], "std::fs::read") for f in facts_at(ctx, cb_, bb))
+                    if not missing_file:
+                        bad_default.append(cb_.line_of(bb))
+        if not bad_default:
+            rr.ok("from_file: the defaults stand in only for a file that could not be read")
+        else:
+            rr.fail("file-layer-voided:parse-error", "`config::from_file` answers `T::default()` on a path other than 'the file could not be read' (the parse-error arm): a teos.toml with one unusable value is discarded as a whole and the daemon starts on the defaults — the file layer of 'command line over file over defaults' is gone for every other setting in it", where=bad_default[0])
     # unknown network => Err
     unk = [bb for bb in errs if not (auth_possible(bb) & {"Invalid", "Multiple"})]
     if unk:
